@@ -405,3 +405,7 @@ mod tests {
         handle.abort();
     }
 }
+
+#[cfg(all(test, pendulum_project_ntpd_rs_verif))]
+#[path = "/verif/harness/ntpd/probe_observer.rs"]
+pub(crate) mod verif_probe;
